@@ -363,3 +363,224 @@ Proof.
   induction l as [|a l IH]; [reflexivity|]. simpl. destruct (nonempty a) eqn:E; [|assumption].
   simpl. rewrite E. assumption.
 Qed.
+
+(* ------------------------------------------------------------------ status line + header block *)
+Definition mkresp (c : cfg) (body : bytes) (cl : bool) : presp :=
+  {| p_v11 := v11 c; p_status := status c; p_reason := reason c;
+     p_headers := out_headers c; p_body := body; p_close := cl |}.
+
+Definition nobody_client (s : N) : bool := ((100 <=? s) && (s <? 200)) || (s =? 204) || (s =? 304).
+
+Lemma parse_head_ok : forall c B, wf c = true ->
+  parse (head c) (head_bytes c ++ B) =
+  if head c || nobody_client (status c) then Some (mkresp c [] (close1 c), B)
+  else if chunked c then
+    match parse_chunks (S (length B)) B with
+    | Some (b, r2) => Some (mkresp c b (close1 c), r2)
+    | None => None
+    end
+  else match clen c with
+       | Some n => match take (N.to_nat n) B with
+                   | Some (b, r2) => Some (mkresp c b (close1 c), r2)
+                   | None => None
+                   end
+       | None => Some (mkresp c B true, [])
+       end.
+Proof.
+  intros c B H. pose proof (wf_parts c H) as [_ [_ [Hr [Hs _]]]].
+  unfold parse, head_bytes. rewrite status_line_eq. repeat rewrite <- app_assoc.
+  change (crlf ++ concat (map hline (out_headers c)) ++ crlf ++ B)
+    with (13 :: 10 :: (concat (map hline (out_headers c)) ++ crlf ++ B)).
+  rewrite split_crlf_app by (apply status_text_nocr; assumption).
+  rewrite parse_status_line_ok by assumption.
+  rewrite parse_headers_ok.
+  2:{ apply out_headers_ok; assumption. }
+  2:{ rewrite app_length. pose proof (concat_hlines_length (out_headers c)). lia. }
+  rewrite lookup_conn_out, lookup_te_out, lookup_cl_out by assumption.
+  unfold nobody_client, mkresp.
+  destruct (head c || ((100 <=? status c) && (status c <? 200) || (status c =? 204) || (status c =? 304))) eqn:E1.
+  - replace (head c || (100 <=? status c) && (status c <? 200) || (status c =? 204) || (status c =? 304))
+      with true by (rewrite <- E1; repeat rewrite orb_assoc; reflexivity).
+    destruct (v11 c), (close1 c); reflexivity.
+  - replace (head c || (100 <=? status c) && (status c <? 200) || (status c =? 204) || (status c =? 304))
+      with false by (rewrite <- E1; repeat rewrite orb_assoc; reflexivity).
+    destruct (chunked c).
+    + destruct (parse_chunks (S (length B)) B) as [[b r2]|]; [|destruct (v11 c), (close1 c); reflexivity].
+      destruct (v11 c), (close1 c); reflexivity.
+    + destruct (clen c) as [n|].
+      * rewrite undec_dec. destruct (take (N.to_nat n) B) as [[b r2]|]; destruct (v11 c), (close1 c); reflexivity.
+      * destruct (v11 c), (close1 c); reflexivity.
+Qed.
+
+(* ------------------------------------------------------------------ the bytes of one response *)
+Definition body_pieces (c : cfg) : list bytes :=
+  if eff_stream c && truthy c then eff_chunks c else [concat (eff_chunks c)].
+Definition body_wire (c : cfg) : bytes :=
+  if chunked c then concat (map frame (filter nonempty (body_pieces c))) ++ term
+  else concat (eff_chunks c).
+
+Lemma stream_not_sized : forall c, wf c = true -> eff_stream c = true -> eff_sized c = false.
+Proof.
+  intros c H Hs. apply wf_parts in H. destruct H as [_ [_ [_ [_ H]]]].
+  unfold eff_stream in Hs. unfold eff_sized.
+  destruct (nobody_status (status c)), (stream c), (sized c); simpl in *; congruence.
+Qed.
+
+Lemma map_id_ext : forall (l : list bytes), map (fun d => d) l = l.
+Proof. induction l; simpl; congruence. Qed.
+
+Lemma respond_form : forall c, wf c = true -> head c = false ->
+  respond c <> Crash /\ wire c = head_bytes c ++ body_wire c /\ closed c = close1 c.
+Proof.
+  intros c H Hh. unfold wire, closed, respond, body_wire, body_pieces. rewrite Hh.
+  destruct (eff_stream c && truthy c) eqn:Est.
+  - apply andb_true_iff in Est. destruct Est as [Es _].
+    rewrite (stream_not_sized c H Es).
+    split; [discriminate|]. split; [|reflexivity].
+    destruct (chunked c).
+    + cbn [app concat]. rewrite concat_app. cbn [concat]. rewrite app_nil_r. reflexivity.
+    + cbn [app concat]. rewrite app_nil_r. rewrite map_id_ext, concat_filter_nonempty. reflexivity.
+  - split; [discriminate|]. split; [|reflexivity].
+    destruct (chunked c); destruct (concat (eff_chunks c)) eqn:Eb; cbn [nonempty app concat filter map];
+      repeat rewrite app_nil_r; reflexivity.
+Qed.
+
+Lemma respond_head : forall c, head c = true ->
+  respond c = Out [head_bytes c] (close1 c).
+Proof. intros c Hh. unfold respond. rewrite Hh. reflexivity. Qed.
+
+Lemma nobody_client_status : forall s, nobody_client s = true -> nobody_status s = true.
+Proof. intros s. unfold nobody_client, nobody_status. lia. Qed.
+
+Lemma close1_until : forall c, clen c = None -> chunked c = false -> head c = false -> close1 c = true.
+Proof.
+  intros c H1 H2 Hh. unfold close1, chunked in *. rewrite H1 in *. rewrite Hh in *.
+  destruct (status c =? 413); [reflexivity|]. destruct (v11 c); simpl in *; congruence.
+Qed.
+
+Lemma frames_length : forall L, (length L <= length (concat (map frame L)))%nat.
+Proof.
+  induction L as [|d L IH]; [simpl; lia|].
+  cbn [map concat]. rewrite app_length. rewrite frame_eq. rewrite app_length. simpl. lia.
+Qed.
+
+Lemma clen_nobody : forall c, nobody_status (status c) = true -> clen c = Some 0 /\ eff_chunks c = [].
+Proof. intros c H. unfold clen, eff_sized, eff_chunks. rewrite H. split; reflexivity. Qed.
+
+Lemma clen_some : forall c n, clen c = Some n -> n = N.of_nat (length (concat (eff_chunks c))) /\ chunked c = false.
+Proof.
+  intros c n H. split.
+  - unfold clen in H. destruct (eff_sized c); [|discriminate]. inversion H. apply total_len_concat.
+  - unfold chunked. rewrite H. reflexivity.
+Qed.
+
+(* the central statement: the independent client recovers status, headers, body and close announcement,
+   and stops reading exactly at the end of the response *)
+Lemma roundtrip : forall c rest, wf c = true -> (until_close c = true -> rest = []) ->
+  parse (head c) (wire c ++ rest) = Some (expected c, rest).
+Proof.
+  intros c rest H Hu. destruct (head c) eqn:Hh.
+  - unfold wire. rewrite respond_head by assumption. cbn [concat]. rewrite app_nil_r.
+    rewrite <- Hh at 1. rewrite parse_head_ok by assumption. rewrite Hh. cbn [orb].
+    unfold mkresp, expected. rewrite Hh. reflexivity.
+  - destruct (respond_form c H Hh) as [_ [Hw _]]. rewrite Hw. rewrite <- app_assoc.
+    rewrite <- Hh at 1. rewrite parse_head_ok by assumption. rewrite Hh. cbn [orb].
+    assert (Hexp : mkresp c (concat (eff_chunks c)) (close1 c) = expected c)
+      by (unfold mkresp, expected; rewrite Hh; reflexivity).
+    destruct (nobody_client (status c)) eqn:En.
+    + apply nobody_client_status in En. destruct (clen_nobody c En) as [Hc Hch].
+      unfold body_wire. destruct (clen_some c 0 Hc) as [_ Hck]. rewrite Hck, Hch. cbn [concat app].
+      rewrite <- Hexp, Hch. reflexivity.
+    + unfold body_wire. destruct (chunked c) eqn:Ech.
+      * rewrite <- app_assoc. rewrite parse_chunks_ok.
+        -- rewrite concat_filter_nonempty. unfold body_pieces.
+           destruct (eff_stream c && truthy c); cbn [concat]; repeat rewrite app_nil_r; rewrite Hexp; reflexivity.
+        -- apply filter_nonempty_all.
+        -- repeat rewrite app_length.
+           pose proof (frames_length (filter nonempty (body_pieces c))). lia.
+      * destruct (clen c) as [n|] eqn:Ecl.
+        -- destruct (clen_some c n Ecl) as [Hn _]. rewrite Hn, Nat2N.id, take_app. rewrite Hexp. reflexivity.
+        -- rewrite Hu by (unfold until_close; rewrite Hh, Ecl, Ech; reflexivity).
+           rewrite app_nil_r. rewrite <- Hexp. rewrite (close1_until c Ecl Ech Hh). reflexivity.
+Qed.
+
+(* ------------------------------------------------------------------ consequences *)
+Lemma closed_close1 : forall c, wf c = true -> closed c = close1 c.
+Proof.
+  intros c H. destruct (head c) eqn:Hh.
+  - unfold closed. rewrite respond_head by assumption. reflexivity.
+  - apply (respond_form c H Hh).
+Qed.
+
+Lemma no_crash : forall c, wf c = true -> respond c <> Crash.
+Proof.
+  intros c H. destruct (head c) eqn:Hh.
+  - rewrite respond_head by assumption. discriminate.
+  - apply (respond_form c H Hh).
+Qed.
+
+(* the connection is closed iff the response, as read by the client, announces it *)
+Lemma close_iff_announced : forall c rest r rest', wf c = true -> (until_close c = true -> rest = []) ->
+  parse (head c) (wire c ++ rest) = Some (r, rest') -> p_close r = closed c.
+Proof.
+  intros c rest r rest' H Hu Hp. rewrite roundtrip in Hp by assumption. inversion Hp; subst.
+  rewrite closed_close1 by assumption. reflexivity.
+Qed.
+
+(* HEAD, 1xx, 204, 205, 304: nothing but the status line and the header block is written *)
+Lemma no_body_bytes : forall c, wf c = true ->
+  head c = true \/ nobody_status (status c) = true -> wire c = head_bytes c.
+Proof.
+  intros c H [Hh|Hn].
+  - unfold wire. rewrite respond_head by assumption. cbn [concat]. apply app_nil_r.
+  - destruct (head c) eqn:Hh.
+    + unfold wire. rewrite respond_head by assumption. cbn [concat]. apply app_nil_r.
+    + destruct (respond_form c H Hh) as [_ [Hw _]]. rewrite Hw.
+      destruct (clen_nobody c Hn) as [Hc Hch]. destruct (clen_some c 0 Hc) as [_ Hck].
+      unfold body_wire. rewrite Hck, Hch. apply app_nil_r.
+Qed.
+
+Lemma close_wish_honoured : forall c, wf c = true -> close0 c = true -> closed c = true.
+Proof.
+  intros c H H0. rewrite closed_close1 by assumption. unfold close1. rewrite H0.
+  destruct (status c =? 413); [reflexivity|]. destruct (clen c); [reflexivity|].
+  destruct (v11 c && negb (head c)); reflexivity.
+Qed.
+
+Lemma keep_alive_kept : forall c, wf c = true -> close0 c = false -> status c <> 413 ->
+  eff_sized c = true \/ (v11 c = true /\ head c = false) -> closed c = false.
+Proof.
+  intros c H H0 Hs Hd. rewrite closed_close1 by assumption. unfold close1, clen. rewrite H0.
+  apply N.eqb_neq in Hs. rewrite Hs.
+  destruct Hd as [Hd|[Hv Hh]]; [rewrite Hd; reflexivity|].
+  rewrite Hv, Hh. destruct (eff_sized c); reflexivity.
+Qed.
+
+(* requests on one connection: every response but the last leaves the connection open *)
+Fixpoint conn_ok (cs : list cfg) : bool :=
+  match cs with
+  | [] => true
+  | c :: r => wf c && match r with [] => true | _ => negb (closed c) && conn_ok r end
+  end.
+
+Lemma open_not_until_close : forall c, wf c = true -> closed c = false -> until_close c = false.
+Proof.
+  intros c H Hc. rewrite closed_close1 in Hc by assumption.
+  unfold until_close. destruct (head c) eqn:Hh; [reflexivity|]. cbn [negb andb].
+  destruct (clen c) eqn:Ecl; [reflexivity|]. destruct (chunked c) eqn:Ech; [reflexivity|].
+  rewrite (close1_until c Ecl Ech Hh) in Hc. discriminate.
+Qed.
+
+Lemma keepalive_sequence : forall cs, conn_ok cs = true ->
+  parse_many (map head cs) (concat (map wire cs)) = Some (map expected cs).
+Proof.
+  induction cs as [|c r IH]; intros H; [reflexivity|].
+  cbn [conn_ok] in H. apply andb_true_iff in H. destruct H as [Hwf Hr].
+  cbn [map concat parse_many].
+  destruct r as [|c' r'].
+  - cbn [map concat]. rewrite roundtrip by (assumption || reflexivity). reflexivity.
+  - apply andb_true_iff in Hr. destruct Hr as [Hopen Hr]. apply negb_true_iff in Hopen.
+    rewrite roundtrip; [| assumption |].
+    + rewrite IH by assumption. reflexivity.
+    + intro Hu. rewrite open_not_until_close in Hu by assumption. discriminate.
+Qed.
